@@ -120,7 +120,7 @@ def h_milp(s, rows, c, U, integers, minimize, heuristics=True, warm=None, lns=0,
     if res.iterations > 1:
         s.goal("milp.branching")
     s.observe("objective", res.objective)
-    s.observe("x", x)
+    s.observe("x_len", len(x))
 
 
 def items(tier, rng):
